@@ -247,6 +247,12 @@ def run(ctx):
                                                    % (how, len(blk.transactions), pos),
                                            "block": forged.serialize().hex(), "original": blk.serialize().hex()})
     chain.unpatch()
+    # the commitment as a function also when two threads commit at the same time (a node validates a received block while its
+    # miner thread assembles a header)
+    conc_lists = [[gens.rb(rng, 32) for _ in range(n_)] for n_ in (2, 2, 3, 4, 4, 5, 7, 8, 2, 3, 6, 2)]
+    conc_expected = [get_merkle_root(list(l_)).hex() for l_ in conc_lists]
+    kit.concurrent_probe(res, "get_merkle_root", lambda: [
+        ((lambda l_=l_: get_merkle_root(list(l_)).hex()), e_, "list of %d ids" % len(l_)) for l_, e_ in zip(conc_lists, conc_expected)])
     model = ctx.driver.ask(ops)
     kit.compare(res, ops, impl, model)
     res.exhaustive = True
